@@ -615,8 +615,38 @@ def attribute_matrix(ctx, attr):
             ex.close()
 
 
+# pairs of styles whose attribute values read the same when written one after the other without a separator
+ADJACENT_PAIRS = [
+    ({"bg_color": [255, 0, 0]}, {"bg_color": [25, 50, 0]}),
+    ({"bg_color": [1, 23, 4]}, {"bg_color": [12, 3, 4]}),
+    ({"bg_color": [10, 0, 200]}, {"bg_color": [100, 20, 0]}),
+    # float32-exact values: "1.0" + "6250.5" == "1.0625" + "0.5"
+    ({"right_indent": 1.0, "text_inset": 6250.5}, {"right_indent": 1.0625, "text_inset": 0.5}),
+    ({"first_indent": 2.5, "left_indent": 6250.5}, {"first_indent": 2.5625, "left_indent": 0.5}),
+]
+
+
+def adjacent_pairs(ctx):
+    for k, (a, b) in enumerate(ADJACENT_PAIRS):
+        ex = StyleExec(ctx)
+        try:
+            ex.apply("new", rows=3, cols=2)
+            ex.apply("add_style", spec={"name": "One", **BASE_SPEC, **a})
+            ex.apply("add_style", spec={"name": "Two", **BASE_SPEC, **b})
+            ex.apply("apply", row=0, col=0, idx=0, by_name=False)
+            ex.apply("apply", row=1, col=1, idx=1, by_name=False)
+            ex.apply("reopen", switch=False)
+            ex.finish()
+            ctx.nt_enum(1)
+        except _Abort:
+            pass
+        finally:
+            ex.close()
+
+
 def tasks(tier, seed):
     t = [("matrix", {"attr": a}) for a in BASE_SPEC]
+    t.append(("adjacent", {}))
     for k in range(8):
         t.append(("styles", {"n": 30 if tier == "quick" else 400, "steps": 14 if tier == "quick" else 20, "seed": derive_seed(seed, "c15s", k)}))
     for k in range(8):
@@ -629,6 +659,8 @@ def run_task(ctx, lane, **kw):
         run_machine(ctx, make_style_machine(ctx), kw["n"], kw["steps"], kw["seed"], exec_factory=StyleExec)
     elif lane == "matrix":
         attribute_matrix(ctx, kw["attr"])
+    elif lane == "adjacent":
+        adjacent_pairs(ctx)
     elif lane == "borders":
         run_machine(ctx, make_border_machine(ctx, kw["merges"]), kw["n"], kw["steps"], kw["seed"], exec_factory=BorderExec)
     else:
